@@ -11,7 +11,7 @@ VARIABLES out,    \* the vector, as JSON text
           kind    \* "req" | "resp" (a second variable also makes TLC print states as conjunctions,
                   \* which is what the driver's dump parser expects)
 
-AllFixed == {"F5", "F6", "F7", "HEAD", "METRIC"}
+AllFixed == {"F5", "F6", "F7", "HEAD", "METRIC", "ABORT", "CLONE"}
 
 PathClass == <<"plain", "esc-unreserved", "esc-space", "esc-slash", "esc-qmark", "esc-hash", "esc-pct",
                "esc-pct-hex", "esc-ctl", "subdelims", "esc-utf8", "bang", "esc-slash-lc">>
@@ -33,11 +33,15 @@ RespFeat(s) ==
      clAtAdaptor |-> AtAdaptor(s).clhdr >= 0,
      \* response to HEAD that announces the length of the would-be body
      headWithLength |-> s.head /\ AtCompress(s).gocl > 0,
-     transparentGunzip |-> AtCompress(s).label # BackendResp(s).label]
+     transparentGunzip |-> AtCompress(s).label # BackendResp(s).label,
+     \* a body that breaks off is handed on as a stream after its Content-Length header was dropped
+     brokenUnframedStream |-> s.short /\ AtAdaptor(s).streamed /\ S_RespAdaptor(AtAdaptor(s), s, AllFixed).clhdr < 0]
 
 RespVec(s) ==
     [dir |-> "resp", s |-> s, feat |-> RespFeat(s), replaces |-> ReplacesBody(s.rsa), minLength |-> IF s.comp = "off" THEN -1 ELSE MinLength(s.comp),
-     exp |-> Outcome(Exchange(DefaultReqScn, s, AllFixed))]
+     reqs |-> Reqs(s),
+     \* one prediction per request of the sequence
+     exps |-> [kk \in 1..Reqs(s) |-> Outcome(ExchangeK(DefaultReqScn, s, AllFixed, kk))]]
 
 Init == \/ kind = "req" /\ \E s \in ReqSpace : out = ToJson(ReqVec(s))
         \/ kind = "resp" /\ \E s \in RespSpace : out = ToJson(RespVec(s))
